@@ -58,6 +58,26 @@ var worlds = map[string]*worldSpec{
 	},
 }
 
+func init() {
+	worlds["progressworld"] = &worldSpec{
+		name: "progressworld", pkgs: []string{"util/ioutil"}, quick: 16000, thorough: 150000,
+		real: []string{"util/ioutil/progress.go (sum with select-default send, Close, Write, WriteString; channel syntax mechanically rewritten)"},
+		stub: []string{"goroutine scheduling", "the status channel", "writer and consumer tasks (harness)", "the wrapped io.Writer / io.StringWriter (short, failing, partial writes)", "clock"},
+		rule: "one case = one simulated run: a script of 0..8 Write/WriteString calls of sizes 0..64KiB over a fault-injecting wrapped writer, then Close, against 1..2 consumers of four temperaments, under a seeded schedule; non-trivial = at least one context switch where the running task could have continued, forced pre-emption or fired fault; distinct = distinct hash of the full event history",
+		assume: []string{"simulated channel semantics conform to the Go specification (simrt conformance suite)", "sampling, not proof: <=8 operations, <=2 consumers per run"},
+	}
+	propWorld["C19"] = "progressworld"
+	worlds["filterworld"] = &worldSpec{
+		name: "filterworld", pkgs: []string{"util/netutil"}, quick: 4000, thorough: 60000,
+		real: []string{"util/netutil/filter.go (Add, Remove, Contains, list-to-map migration; sync imports shimmed, every field/element/map access instrumented in place)"},
+		stub: []string{"goroutine scheduling", "sync.RWMutex", "atomic.Bool", "client tasks (harness)"},
+		rule: "one case = one simulated run: a prologue that places the filter before, at or beyond the list-to-map switch (with removed slots), then a seeded history of Add/Remove/Contains/invalid-argument calls over a colliding universe of prefixes (C11: one client, model equality after every operation, 4- and 16-byte probes; C12: 1..3 writers owning disjoint ranges, 1..3 readers, pre-emption inside critical sections); non-trivial = at least one context switch where the running task could have continued, forced pre-emption or fired fault (C11 runs are sequential: non-trivial there means distinct operation history); distinct = distinct hash of the full event history",
+		assume: []string{"simulated RWMutex/atomic semantics conform to package sync's documentation (simrt conformance suite)", "sampling, not proof: <=40 operations after the prologue, <=3 writers, <=3 readers"},
+	}
+	propWorld["C11"] = "filterworld"
+	propWorld["C12"] = "filterworld"
+}
+
 var propWorld = map[string]string{
 	"C06": "laneworld", "C07": "laneworld", "C08": "laneworld", "C14": "laneworld",
 }
